@@ -90,6 +90,20 @@ def cached_thing(key):
 '''
 
 
+def reach_set(proj: Project, w):
+    """Functions reachable from the render / compile / first-access entry points (for rules borrowed by other properties)."""
+    entries = []
+    for mod, q in ENTRIES:
+        r = proj.try_func(mod, q)
+        if r is not None:
+            entries.append(f"{r[0].name}:{q}")
+    if len(entries) < 16:
+        raise AnalysisError(f"C07 entry points vanished: {len(entries)} of {len(ENTRIES)}")
+    reach = w.cg.reachable(entries)
+    reach.update(w.render_reachable())
+    return reach
+
+
 def run(chk: Check, proj: Project) -> None:
     chk.explanation = (
         "Ownership argument for race freedom: every access to process-global state of the library is enumerated and "
@@ -121,6 +135,7 @@ def run(chk: Check, proj: Project) -> None:
     s1a_parsed_values(chk, proj, w)
     s1a_lock_statements(chk, proj, w)
     s1i_shared_instances(chk, proj, w)
+    s1g_global_objects(chk, proj, w, reach)
     from . import C18
 
     c18m = proj.mod("util.cache")
@@ -197,6 +212,72 @@ def _whole(chk: Check, proj, w, g, gk: str, a, ck: str, fn: str) -> None:
 
 
 # ---------------------------------------------------------------------------------------------
+# External classes whose instances are per-render working objects (pushed to, popped from, advanced while rendering /
+# compiling). One process-wide instance of any of them is shared by every concurrently running render.
+MUTABLE_WORK_OBJECTS = {
+    "Context", "RequestContext", "RenderContext", "BaseContext", "ContextDict", "Template", "NodeList", "Parser", "Lexer",
+    "DebugLexer", "Media", "Origin", "Token", "StringIO", "BytesIO", "HTMLParser", "Random", "SafeExceptionReporterFilter",
+}
+
+
+def _class_is_mutable(cls: ast.ClassDef) -> Optional[str]:
+    """Name of a method (other than __init__ / __post_init__) that assigns to an attribute of self, if any."""
+    for fn in cls.body:
+        if isinstance(fn, (ast.FunctionDef, ast.AsyncFunctionDef)) and fn.name not in ("__init__", "__post_init__", "__new__"):
+            ps = fn.args.posonlyargs + fn.args.args
+            if not ps:
+                continue
+            me = ps[0].arg
+            for n in ast.walk(fn):
+                tg = n.targets if isinstance(n, ast.Assign) else [n.target] if isinstance(n, (ast.AugAssign, ast.AnnAssign)) else []
+                for t in tg:
+                    if isinstance(t, ast.Attribute) and isinstance(t.value, ast.Name) and t.value.id == me:
+                        return fn.name
+    return None
+
+
+def s1g_global_objects(chk: Check, proj: Project, w, reach, rule: str = "S1-G") -> None:
+    chk.rule(rule, "no per-render working object lives at module level: every module-level INSTANCE that render / compile code reads is either classified (settings, registry, formatter, Library) or an instance of a class that cannot change after construction - a process-wide Context / Template / NodeList / parser object ('created only once' for speed) is pushed to and popped from by every concurrent render")
+    n = 0
+    for k, g in sorted(w.inv.items()):
+        if g.kind != "instance" or g.detail.startswith("typing."):
+            continue
+        n += 1
+        if k in CLASSIFIED or k in PER_RENDER:
+            chk.holds(rule, k, g.mod.loc(g.node), f"classified: {(CLASSIFIED.get(k) or ('per-render', ''))[0]}", nontrivial=False)
+            continue
+        # where is it read?
+        readers = []
+        for m2, q, fn in proj.all_funcs():
+            if fkey(m2, fn) not in reach:
+                continue
+            for nm in ast.walk(fn):
+                if isinstance(nm, ast.Name) and isinstance(nm.ctx, ast.Load) and nm.id == g.name:
+                    r = proj.resolve(m2, nm.id)
+                    if r is not None and (m2 is g.mod or r[0] in ("global", "import", "def") or True):
+                        if m2 is g.mod or any(isinstance(i, ast.ImportFrom) and any(a.name == g.name for a in i.names) for i in ast.walk(m2.tree)):
+                            readers.append((m2, q, nm))
+        cls_name = g.detail.split(":")[-1].split(".")[-1]
+        why = None
+        if ":" in g.detail:
+            mm_, cn = g.detail.split(":")
+            try:
+                cdef = proj.mod(mm_.replace("django_components.", "")).cls(cn)
+                meth = _class_is_mutable(cdef)
+                if meth:
+                    why = f"its class {cn} changes its own state in {meth}()"
+            except Exception:
+                why = None
+        elif cls_name in MUTABLE_WORK_OBJECTS:
+            why = f"{cls_name} objects are working state of ONE render / compilation (layers are pushed and popped, nodes appended, positions advanced)"
+        if not readers or why is None:
+            chk.holds(rule, k, g.mod.loc(g.node), "not read by render / compile code" if not readers else f"instance of {cls_name}, which has no state-changing method")
+            continue
+        m2, q, nm = readers[0]
+        chk.violated(rule, k, m2.loc(nm), f"module-level `{g.name} = {short(g.node.value if hasattr(g.node, 'value') else g.node, 40)}` is handed to render code in {q}: {why}, and this ONE object is shared by all threads (and by nested renders of one thread) - two fills rendered at the same time push their variables onto the same Context and see / pop each other's layers")
+    chk.floor(rule, n, 5)
+
+
 def s1c_shared(chk: Check, proj: Project, w, reach) -> None:
     chk.rule("S1-C", "every mutation of shared-key process-global state (memo, lazy singleton, class table) reachable from render / compile / first-access code is a reviewed idempotent site")
     n = 0
@@ -692,8 +773,20 @@ def s1a_nodes(chk: Check, proj: Project, w, reach) -> None:
             if isinstance(c, ast.ClassDef) and any((dotted(b) or "").split(".")[-1] in ("BaseNode", "Node") for b in c.bases):
                 node_classes.append((m, c))
     for m, c in node_classes:
+        # render-time methods: render / render_annotated and every method of the class they reach through `self.<m>`
+        # (called, or handed on as a bound method)
+        meths = {x.name: x for x in c.body if isinstance(x, ast.FunctionDef)}
+        rt = {k for k in meths if k in ("render", "render_annotated")}
+        grew = True
+        while grew:
+            grew = False
+            for k in list(rt):
+                for x in ast.walk(meths[k]):
+                    if isinstance(x, ast.Attribute) and isinstance(x.ctx, ast.Load) and isinstance(x.value, ast.Name) and x.value.id == "self" and x.attr in meths and x.attr not in rt and x.attr not in ("__init__", "parse"):
+                        rt.add(x.attr)
+                        grew = True
         for st in c.body:
-            if isinstance(st, ast.FunctionDef) and st.name in ("render", "render_annotated") :
+            if isinstance(st, ast.FunctionDef) and st.name in rt:
                 n += 1
                 chk.analysed(fkey(m, st))
                 bad = [x for x in body_walk(st) if isinstance(x, ast.Attribute) and isinstance(x.ctx, (ast.Store, ast.Del)) and isinstance(x.value, ast.Name) and x.value.id == "self"]
